@@ -509,6 +509,50 @@ Plan gen_proto(u64 seed, u64 idx, const RunCtx & ctx)
   return p;
 }
 
+/// Exhaustive companion (thorough tier): run index enumerates EVERY call sequence of length 1..4 over a
+/// 15-call alphabet on one generator (54240 sequences; the thorough tier goes to length 5: 813615), each followed by a probe
+/// (initialise if possible, shoot) so that the final state is exercised. gA dataset for Se82/g0 present.
+const u64 ENUM_ALPHA = 15;
+u64 proto_enum_total() { return 15 + 15 * 15 + 15 * 15 * 15 + 15 * 15 * 15 * 15 + 15 * 15 * 15 * 15 * 15; } // lengths 1..5; the first 54240 indices are lengths 1..4
+Op enum_op(u64 k)
+{
+  switch (k) {
+  case 0: return mk("set_cat", {0, 1});
+  case 1: return mk("set_cat", {0, 2});
+  case 2: return mk("set_iso", {0}, {"Co60"});
+  case 3: return mk("set_iso", {0}, {"Mo100"});
+  case 4: return mk("set_iso", {0}, {"Se82"});
+  case 5: return mk("set_level", {0, 0});
+  case 6: return mk("set_mode", {0, 1});
+  case 7: return mk("set_mode", {0, 21});
+  case 8: return mk("set_range", {0, 500, 2500});
+  case 9: return mk("add_op", {0, 1});
+  case 10: return mk("add_op", {0, 0});
+  case 11: return mk("init", {0, 7, -1, -1, -1});
+  case 12: return mk("shoot", {0, 3, 0, -1});
+  case 13: return mk("reset", {0});
+  default: return mk("dump", {0});
+  }
+}
+Plan gen_proto_enum(u64 seed, u64 idx, const RunCtx &)
+{
+  Plan p; p.suite = "proto-enum"; p.seed = seed; p.idx = idx;
+  u64 i = idx % proto_enum_total();
+  int len = 1; u64 block = ENUM_ALPHA;
+  while (i >= block) { i -= block; block *= ENUM_ALPHA; len++; }
+  p.hdr["enumerated"] = "length " + std::to_string(len);
+  p.ops.push_back(mk("ga_put", {0, 0, 0, -1}));
+  std::vector<u64> digits;
+  for (int k = 0; k < len; k++) { digits.push_back(i % ENUM_ALPHA); i /= ENUM_ALPHA; }
+  for (int k = len - 1; k >= 0; k--) p.ops.push_back(enum_op(digits[(size_t)k]));
+  // probe the state reached
+  p.ops.push_back(mk("init", {0, 9, -1, -1, -1}));
+  p.ops.push_back(mk("shoot", {0, 5, 1, -1}));
+  p.ops.push_back(mk("reset", {0}));
+  p.ops.push_back(mk("dump", {0}));
+  return p;
+}
+
 std::vector<Op> simplify_proto(const Op & op)
 {
   std::vector<Op> v;
@@ -521,6 +565,9 @@ std::vector<Op> simplify_proto(const Op & op)
 
 SuiteRegistrar reg_proto({"proto", "random public-API call sequences against an executable protocol state machine (C09)", gen_proto, run_proto, simplify_proto,
                           nullptr});
+
+SuiteRegistrar reg_proto_enum({"proto-enum", "every public-API call sequence of length <= 4 over a 15-call alphabet, against the same protocol model (C09, thorough)",
+                               gen_proto_enum, run_proto, simplify_proto, nullptr});
 
 } // namespace
 } // namespace sim
